@@ -149,6 +149,23 @@ def check_pack(col, fi, n, active, thorough):
                 prev = results.setdefault((npk, p), (pname, sig))
                 if prev[1] != sig:
                     col.violation("depends_on_input_partitioning", case, f"result differs between {prev[0]} and {pname}")
+    # default arguments (npartitions=None -> 8 below 2^23 rows, p=15)
+    import dask.dataframe as dd
+    case = {"frame": fi, "n": n, "active": active, "provenance": "from_pandas(2)", "npartitions": None, "p": 15}
+    col.count("evaluations")
+    try:
+        packed = dd.from_pandas(P0, npartitions=min(2, n)).pack_partitions()
+        comp = packed.compute(scheduler="synchronous")
+        if sorted(rows_of(comp)) != want_rows:
+            col.violation("rows", case, "default arguments: rows differ")
+        want_hd = np.asarray(comp[active].array.hilbert_distance(total_bounds=tuple(tb), p=15))
+        if comp.index.tolist() != want_hd.tolist() or comp.index.tolist() != sorted(comp.index.tolist()):
+            col.violation("index_not_hilbert_distance", case, f"default arguments: index {comp.index.tolist()} vs {want_hd.tolist()}")
+        if packed.npartitions != 8:
+            col.violation("npartitions", case, f"default npartitions: {packed.npartitions}", claimed=packed.npartitions, real=-1,
+                          consistent=True)
+    except Exception:
+        col.count("raised_exempt")
     col.sample({"frame": fi, "n": n, "active": active, "provenance": "from_pandas(2)", "npartitions": 3, "p": 10})
 
 
